@@ -154,6 +154,11 @@ impl Iterator for ReluctantFixedIterator<'_> {
             self.matcher.clear_captured_groups_beyond(self.position);
             let mut it = self.op.matches_iter(self.matcher, self.pos);
             if let Some(next) = it.next() {
+                if next == self.pos {
+                    // a zero-length body makes no progress: further
+                    // repetitions only repeat the match already offered
+                    return None;
+                }
                 self.pos = next;
                 self.count += 1;
                 return Some(self.pos);
